@@ -545,6 +545,9 @@ func (c *ctx) binary(op token.Token, X, Y ast.Expr, en *env, rt lty) string {
 		a := c.expr(X, en)
 		sub := &env{vars: en.vars}
 		b := c.expr(Y, sub)
+		if strings.Contains(b, "§let ") {
+			refuse("a call that assigns through a pointer inside the right operand of %s", op)
+		}
 		for _, k := range sub.oks {
 			if op == token.LAND {
 				en.oks = append(en.oks, "(!"+a+" || "+k+")")
@@ -1084,6 +1087,9 @@ func (c *ctx) stmts(list []ast.Stmt, k []func(*env, *out), en *env, o *out, mode
 				t := ltype(obj.Type())
 				var v string
 				if i < len(vs.Values) {
+					if u, ok := vs.Values[i].(*ast.UnaryExpr); ok && u.Op == token.AND {
+						refuse("a pointer to a variable is stored (aliasing is not modelled)")
+					}
 					v = c.ev(vs.Values[i], en, o)
 				} else {
 					switch t.kind {
@@ -1444,6 +1450,9 @@ func (c *ctx) assign(x *ast.AssignStmt, en *env, o *out) {
 		return
 	}
 	lhs, rhs := x.Lhs[0], x.Rhs[0]
+	if u, ok := rhs.(*ast.UnaryExpr); ok && u.Op == token.AND {
+		refuse("a pointer to a variable is stored (aliasing is not modelled)")
+	}
 	switch x.Tok {
 	case token.DEFINE:
 		id := lhs.(*ast.Ident)
